@@ -135,6 +135,7 @@ class Ctx:
         self.base_heap = base_heap
         self.all_names = all_names
         self.points = make_points(all_names, rng)
+        self.rng = rng
         self.observer = observer
         self.judge_generic = judge_generic
         self.mode = mode
@@ -282,6 +283,7 @@ def judge_state(st, ctx, part):
                 part['_own'] = pkey(calls, len(calls))
                 part['_prefixes'] = [pkey(calls, n) for n in range(1, len(calls))]
                 ctx.cur_objs = objs
+                ctx.cur_calls = calls
                 ctx.cur_heap = heap
                 ctx.cur_preds = st.get('pred')
                 ctx.nb = nb
@@ -317,4 +319,7 @@ def summarize(pred):
         return {'kind': 'C', 'den': interp.term_str(pred['den']), 'sense': pred['sense']}
     if k == 'CL':
         return {'kind': 'CL', 'cons': ['%s %s 0' % (interp.term_str(c['den']), c['sense']) for c in pred['cons']]}
+    if k == 'PR':
+        return {'kind': 'PR', 'sense': pred['sense'], 'objective': interp.term_str(pred['obj']),
+                'constraints': ['%s %s 0' % (interp.term_str(c['den']), c['sense']) for c in pred['cons']]}
     return {'kind': k}
